@@ -6,6 +6,8 @@
 package simfs
 
 import (
+	"fmt"
+	"os"
 	"sort"
 	"strings"
 	"syscall"
@@ -81,6 +83,8 @@ type handle struct {
 	pos    int
 	dirPos int
 }
+
+var debugFS = os.Getenv("VERIF_DEBUG_FS") != ""
 
 // Cur is the disk of the current run
 var Cur *FS
@@ -159,6 +163,9 @@ func (fs *FS) begin(kind, path string, length int) Action {
 	fs.opIdx++
 	op := Op{Idx: fs.opIdx, Kind: kind, Path: path, Len: length, Gen: simrt.CurrentGen()}
 	fs.Stats.Ops[kind]++
+	if debugFS {
+		fmt.Fprintf(os.Stderr, "SIMFS %d gen=%d %s %s len=%d\n", fs.opIdx, op.Gen, kind, path, length)
+	}
 	if fs.KeepTrace {
 		fs.Trace = append(fs.Trace, op)
 	}
